@@ -41,15 +41,23 @@ def c02_streams(run, tier, seed):
     rng = core.rng_for(seed, "c02-unstable")
     s = core.Stream("S4-width-unstable", "programs in which an inferred-width operand changes value between label resolution and emission (a constant shadowed by a later inner label, a constant re-assigned with `=`, a macro/loop variant): they must be rejected, or all addresses must still agree; plus duplicate labels; non-trivial = distinct patterns x values")
     progs = []
-    for i in range(40 if tier == "quick" else 400):
+    for i in range(72 if tier == "quick" else 720):
         small = rng.choice([0, 1, 0x10, 0xFF])
         big = rng.choice([0x100, 0x1234, 0xFFFF, 0x12345])
         a, b = rng.choice([(small, big), (big, small)])
         org = rng.choice(["", "*=0x008000\n", "*=0x01fff0\n", "*=0xc08000\n", "*=0x008000\n@=0x7e2000\n", "*=0x028000\n.db 1\n@=0x7f0100\n"])
         rom = "high_rom" if org.startswith("*=0xc0") else "low_rom"
         mn = rng.choice(["lda", "sta", "adc", "cmp", "ora"])
-        pat = i % 6
-        if pat == 0:
+        pat = i % 9
+        if pat == 6:
+            # the re-definition comes AFTER the instruction (same block): label resolution sizes the operand with the
+            # outer constant, emission with the inner symbol
+            src = f"{org}x := 0x{a:x}\n{{\n{mn} x\nx = 0x{b:x}\n}}\nend:\n.db 0xE7\n.dl end\n"
+        elif pat == 7:
+            src = f"{org}x := 0x{a:x}\n{mn} x\nrts\nend:\n.db 0xE7\nx = 0x{b:x}\n.dw end\n"
+        elif pat == 8:
+            src = f"{org}x := 0x{a:x}\n.scope s {{\n{mn} x\nrts\nin:\n.db 0xE7\nx = 0x{b:x}\n}}\nend:\n.dl s.in, end\n"
+        elif pat == 0:
             src = f"{org}x := 0x{a:x}\n{{\n{mn} x\nx:\n}}\nend:\n.dl end\n"
         elif pat == 1:
             src = f"{org}x := 0x{a:x}\nx = 0x{b:x}\n{mn} x\nend:\n.dw end\n"
@@ -90,31 +98,47 @@ def c03_streams(run, tier, seed):
         lines = []
         bins = {}
         nsec = rng.randrange(2, 6)
+        run_at = None
         for k in range(nsec):
             c = rng.random()
-            if k == 0 or c < 0.55:
+            if k > 0 and run_at is not None and c < 0.15:
+                # `*=` to exactly the address the relocated code has reached: the output still moves to that address's
+                # own offset (it is not "already there")
+                lines.append(f"*=0x{run_at:06x}")
+                s.count("star-eq-at-running-address")
+                run_at = None
+            elif k == 0 or c < 0.55:
                 a = g.rom_addr(near_end=rng.random() < 0.4)
                 if rng.random() < 0.2:
                     a = {"low_rom": 0x008000, "high_rom": 0xC00000, "low_rom_2": 0x808000}[rom]
                 lines.append(f"*=0x{a:06x}")
+                run_at = None
             elif c < 0.75:
                 lines.append(f"@=0x{0x7E0000 + rng.randrange(0xF000):06x}")
+                run_at = None
             else:
-                lines.append(f"@=0x{g.rom_addr():06x}")
+                run_at = g.rom_addr()
+                lines.append(f"@=0x{run_at:06x}")
             for _ in range(rng.randrange(1, 4)):
                 k2 = rng.random()
                 if k2 < 0.5:
-                    lines.append(".db " + ", ".join(str(rng.randrange(256)) for _ in range(rng.randrange(1, 30))))
+                    nb = rng.randrange(1, 30)
+                    lines.append(".db " + ", ".join(str(rng.randrange(256)) for _ in range(nb)))
+                    run_at = run_at + nb if run_at is not None else None
                 elif k2 < 0.7:
                     lines.append(f"l{len(lines)}:")
                     lines.append(f".dl l{len(lines) - 1}")
+                    run_at = run_at + 3 if run_at is not None else None
                 elif k2 < 0.85:
-                    lines.append(rng.choice(["nop", "lda.w #0x1234", "sta.l 0x7e0000,x", "jmp.w 0x8000"]))
+                    ins = rng.choice(["nop", "lda.w #0x1234", "sta.l 0x7e0000,x", "jmp.w 0x8000"])
+                    lines.append(ins)
+                    run_at = run_at + {"nop": 1, "lda.w #0x1234": 3, "sta.l 0x7e0000,x": 4, "jmp.w 0x8000": 3}[ins] if run_at is not None else None
                 elif tier == "thorough" or rng.random() < 0.3:
                     name = f"big{len(lines)}.bin"
                     ln = rng.choice([5, 300, 0x10010]) if rom != "low_rom_2" else rng.choice([5, 300])
                     bins[name] = bytes([rng.randrange(256)]) * ln
                     lines.append(f".incbin '{name}'")
+                    run_at = None
         progs.append(raw(rom, "\n".join(lines) + "\n", bins=bins))
     for pr, r, m in run.run(progs):
         s.cases += 1
